@@ -37,7 +37,7 @@ BUDGET = {"quick": 2500, "thorough": 80000}
 FUZZ = {"quick": 3200, "thorough": 160000}  # executions of the coverage-guided stage (vlib/fuzz.py)
 RULE = (
     "case = (structure in {free, adjoint_pair A^dag.A, hermitian_square W.W, sandwich A^dag.H.A, recurrence S=A+c(S.S)}, "
-    "2-4 factors, block-grid dims 1-3, block sizes 1-2, 1-3 infinite dims, value mode int/complex-int matrices or "
+    "2-4 factors, block-grid dims 1-3, block sizes 1-2, 1-3 infinite dims, value mode int / complex-int / object-dtype matrices or "
     "sympy scalars with operator=mul, zero density, pre-declared zeros, identity starts, hermitian flag, request list). "
     "Non-trivial = some requested element has total order >= 2 with a non-empty reference sum of >= 2 terms AND "
     "(a zero/one sentinel takes part, or hermitian=True, or >= 3 factors, or >= 2 infinite dimensions)."
